@@ -307,6 +307,30 @@ def build_space(case):
     return job.steps[0].parameterSpace
 
 
+_ELEM = __import__("re").compile(r"\s*(-?\s*\d+)\s*(?:-\s*(-?\s*\d+)\s*(?::\s*(-?\s*\d+)\s*)?)?\s*$")
+
+
+def expand_range_text(text):
+    """the values a range expression SPELLS OUT, computed from its text by this harness (no parser of the package,
+    no merging): elements in order of (start, end, step), each an inclusive arithmetic progression in its written
+    direction.  Falls back to the implementation's own expansion for text this reader does not understand."""
+    elems = []
+    for part in str(text).split(","):
+        m = _ELEM.match(part)
+        if not m:
+            return list(IntRangeExpr.from_str(text))
+        a = int(m.group(1).replace(" ", ""))
+        b = int(m.group(2).replace(" ", "")) if m.group(2) else a
+        st = int(m.group(3).replace(" ", "")) if m.group(3) else 1
+        if st == 0:
+            return list(IntRangeExpr.from_str(text))
+        elems.append((a, b, st))
+    out = []
+    for a, b, st in sorted(elems):
+        out.extend(range(a, b + (1 if st > 0 else -1), st))
+    return out
+
+
 def space_params(space):
     """declared parameters of the Job's space with expanded value lists"""
     out = []
@@ -315,7 +339,7 @@ def space_params(space):
         if isinstance(d.range, list):
             vals = [str(v) for v in d.range]
         else:
-            vals = [str(v) for v in IntRangeExpr.from_str(d.range)]
+            vals = [str(v) for v in expand_range_text(d.range)]
         out.append((str(name), str(ty), vals))
     return out
 
